@@ -159,6 +159,13 @@ func (g *gen) lookupName(env *specEnv, name string) (Val, error) {
 		if v, ok := env.vars[name+"$result"]; ok {
 			return v, nil
 		}
+		if dr, ok := g.debugVals[name]; ok {
+			v := g.val(dr.v)
+			if dr.isAddr {
+				return g.load(v, dr.v.Type().Underlying().(*types.Pointer).Elem()), nil
+			}
+			return v, nil
+		}
 		for _, fv := range fn.FreeVars {
 			if fv.Name() == name {
 				pv := g.val(fv)
@@ -334,6 +341,14 @@ func (g *gen) evalSpec1(env *specEnv, e *SExpr) (Val, error) {
 				return Val{}, fmt.Errorf("comparing %s with %s in %s", a.Sort, b.Sort, e)
 			}
 			t := g.equal(a, b)
+			if a.Sort == "Slice" {
+				// in specifications a nil slice is the full zero value (values in code are well-formed anyway)
+				other := a
+				if strings.Contains(a.T, "mk_slice 0 0 0 0") {
+					other = b
+				}
+				t = and(eq(app("s_base", other.T), "0"), eq(app("s_len", other.T), "0"), eq(app("s_cap", other.T), "0"))
+			}
 			if e.Op == "!=" {
 				t = not(t)
 			}
@@ -670,11 +685,17 @@ func (g *gen) evalCall(env *specEnv, e *SExpr) (Val, error) {
 		}
 		return g.load(args[0], p.Elem()), nil
 	case "fresh":
-		var ds []string
-		for _, a := range g.allocs {
-			ds = append(ds, eq(args[0].T, a))
+		t := args[0].T
+		if args[0].Sort == "Slice" {
+			t = app("s_base", t)
 		}
-		return boolVal(or(ds...)), nil
+		return boolVal(and(not(eq(t, "0")), not(g.alive0Term(t)))), nil
+	case "alive":
+		t := args[0].T
+		if args[0].Sort == "Slice" {
+			t = app("s_base", t)
+		}
+		return boolVal(g.alive0Term(t)), nil
 	case "logcount":
 		if e.Args[0].Op != "id" {
 			return Val{}, fmt.Errorf("logcount(name)")
@@ -712,6 +733,9 @@ func (g *gen) evalCall(env *specEnv, e *SExpr) (Val, error) {
 		}
 		if env.depth > 12 {
 			return Val{}, fmt.Errorf("spec function %s: expansion too deep (recursive?)", e.Name)
+		}
+		if sf.Opaque {
+			return g.opaqueCall(env, sf, args)
 		}
 		sub := &specEnv{vars: map[string]Val{}, st: env.st, old: env.old, fn: nil, pkg: env.pkg, depth: env.depth + 1, calleeMode: true}
 		// quantifier-bound variables of the caller must stay visible inside bodies only through arguments
@@ -775,6 +799,10 @@ func (g *gen) placeOf(env *specEnv, e *SExpr) (*Place, error) {
 			return nil, fmt.Errorf("assigns path %s: field not found directly", e)
 		}
 		_ = st
+		if _, inner := structOf(obj.Type()); inner {
+			// a struct-valued field: the whole inner object
+			return &Place{Kind: plField, Ref: g.emb(g.st.structName(p.Elem()), e.Name, x.T), Struct: g.st.structName(obj.Type()), Field: "*", Elem: obj.Type()}, nil
+		}
 		return &Place{Kind: plField, Ref: x.T, Struct: g.st.structName(p.Elem()), Field: e.Name, Elem: obj.Type()}, nil
 	case "idx":
 		x, err := g.evalSpec(env, e.Args[0])
@@ -796,6 +824,15 @@ func (g *gen) placeOf(env *specEnv, e *SExpr) (*Place, error) {
 			}
 		}
 	case "call":
+		if e.Name == "mapof" && len(e.Args) == 1 {
+			x, err := g.evalSpec(env, e.Args[0])
+			if err != nil {
+				return nil, err
+			}
+			if _, ok := x.Typ.Underlying().(*types.Map); ok {
+				return &Place{Kind: plMap, Ref: x.T, MapT: x.Typ}, nil
+			}
+		}
 		if e.Name == "elems" && len(e.Args) == 1 {
 			x, err := g.evalSpec(env, e.Args[0])
 			if err != nil {
@@ -840,6 +877,8 @@ func (g *gen) frameObligations(env *specEnv, pos token.Pos) {
 				expect = app("store", expect, p.Ref, app("select", fin, p.Ref))
 			case p.Kind == plCell && cellKey(g.st.sortOf(p.Elem)) == k:
 				expect = app("store", expect, p.Ref, app("select", fin, p.Ref))
+			case p.Kind == plMap && g.isMapKeyOf(p, k):
+				expect = app("store", expect, p.Ref, app("select", fin, p.Ref))
 			case p.Kind == plElem && elemKey(g.st.sortOf(p.Elem)) == k:
 				if p.Idx == "*" {
 					expect = app("store", expect, p.Base, app("select", fin, p.Base))
@@ -871,4 +910,99 @@ func sortStrings(s []string) {
 			s[j], s[j-1] = s[j-1], s[j]
 		}
 	}
+}
+
+func (g *gen) isMapKeyOf(p *Place, k string) bool {
+	ks, vs, _, _ := g.mapSorts(p.MapT)
+	return k == mapDomKey(ks, vs) || k == mapValKey(ks, vs)
+}
+
+type opaqueDef struct {
+	name string
+	keys []string // heap keys the body reads, in order
+	ret  string
+	rtyp types.Type
+}
+
+// opaqueCall emits spec function sf as an uninterpreted SMT function of its arguments and of the heap
+// arrays its body reads, defined by a quantified axiom with the application as trigger ("opaque/reveal").
+func (g *gen) opaqueCall(env *specEnv, sf *SpecFunc, args []Val) (Val, error) {
+	if g.opaques == nil {
+		g.opaques = map[string]*opaqueDef{}
+	}
+	def := g.opaques[sf.Name]
+	if def == nil {
+		// pass A: discover the heap keys read by the body
+		var psorts []string
+		var ptypes []types.Type
+		for i, p := range sf.Params {
+			s, t := binderSort(g, env, p)
+			if t == nil {
+				t = args[i].Typ
+			}
+			psorts = append(psorts, s)
+			ptypes = append(ptypes, t)
+		}
+		mk := func(names []string) *specEnv {
+			sub := &specEnv{vars: map[string]Val{}, pkg: env.pkg, depth: env.depth + 1, calleeMode: true}
+			for i, p := range sf.Params {
+				sub.vars[p.Name] = Val{T: names[i], Sort: psorts[i], Typ: ptypes[i]}
+			}
+			return sub
+		}
+		var pn []string
+		for _, p := range sf.Params {
+			pn = append(pn, g.freshName("op_"+p.Name))
+		}
+		probe := &state{heap: map[string]string{}}
+		g.readLog = map[string]bool{}
+		saveCmds := len(g.cmds)
+		var err error
+		g.withState(probe, func() { _, err = g.evalSpec1(mk(pn), sf.Body) })
+		if err != nil {
+			g.readLog = nil
+			return Val{}, fmt.Errorf("opaque %s: %v", sf.Name, err)
+		}
+		_ = saveCmds
+		var keys []string
+		for k := range g.readLog {
+			keys = append(keys, k)
+		}
+		sortStrings(keys)
+		g.readLog = nil
+		// pass B: body over bound heap variables
+		st := &state{heap: map[string]string{}}
+		var binders, argSorts, appArgs []string
+		for i := range sf.Params {
+			binders = append(binders, "("+pn[i]+" "+psorts[i]+")")
+			argSorts = append(argSorts, psorts[i])
+			appArgs = append(appArgs, pn[i])
+		}
+		for i, k := range keys {
+			hv := g.freshName(fmt.Sprintf("oh%d", i))
+			st.heap[k] = hv
+			binders = append(binders, "("+hv+" "+g.heapSort[k]+")")
+			argSorts = append(argSorts, g.heapSort[k])
+			appArgs = append(appArgs, hv)
+		}
+		var body Val
+		g.withState(st, func() { body, err = g.evalSpec1(mk(pn), sf.Body) })
+		if err != nil {
+			return Val{}, fmt.Errorf("opaque %s: %v", sf.Name, err)
+		}
+		name := "opq_" + sanitize(sf.Name)
+		g.declareFun(name, argSorts, body.Sort)
+		g.assumeGlobal(fmt.Sprintf("(forall (%s) (! (= (%s %s) %s) :pattern ((%s %s))))", strings.Join(binders, " "), name, strings.Join(appArgs, " "), body.T, name, strings.Join(appArgs, " ")))
+		_, rt := binderSort(g, env, Binder{Type: sf.Ret})
+		def = &opaqueDef{name: "opq_" + sanitize(sf.Name), keys: keys, ret: body.Sort, rtyp: rt}
+		g.opaques[sf.Name] = def
+	}
+	var ts []string
+	for _, a := range args {
+		ts = append(ts, a.T)
+	}
+	for _, k := range def.keys {
+		ts = append(ts, g.heapGet(k, g.heapSort[k]))
+	}
+	return Val{T: app(def.name, ts...), Sort: def.ret, Typ: def.rtyp}, nil
 }
